@@ -106,6 +106,107 @@ type TokAttr struct {
 	Re    bool            `json:"re"`
 	UCls  string          `json:"ucls"` // lex | nolex | odd
 	UToks []UTok          `json:"utoks"`
+	// UBig: for the tokens of group "big" (amounts around 2^63 / 2^64, far beyond the model's integer line)
+	// and each built-in unit set: "fits" (strict unit string whose amount fits in int64), "over" (does not
+	// fit), "nolex" (no unit string of that set); "none" for every other token.  Decided with math/big.
+	UBig map[string]string `json:"ubig"`
+}
+
+// HugeAmount stands in the model for "an amount that fits in int64, above the identity region": the exact
+// number is computed by the harness with math/big (BigAmount).
+const HugeAmount = 999000
+
+// UnitSet is an independent copy of a built-in units definition (checked against the SDK at start-up).
+type UnitSet struct {
+	ID    string
+	Mults []int64    // descending, base (1) last
+	Names [][]string // short singular, short plural, long singular, long plural
+}
+
+var UnitSets = []UnitSet{
+	{ID: "sec", Mults: []int64{86400, 3600, 60, 1}, Names: SecUnitNames},
+	{ID: "bytes", Mults: []int64{1 << 50, 1 << 40, 1 << 30, 1 << 20, 1 << 10, 1},
+		Names: [][]string{{"PB", "PB", "petabyte", "petabytes"}, {"TB", "TB", "terabyte", "terabytes"}, {"GB", "GB", "gigabyte", "gigabytes"},
+			{"MB", "MB", "megabyte", "megabytes"}, {"kB", "kB", "kilobyte", "kilobytes"}, {"B", "B", "byte", "bytes"}}},
+	{ID: "nanos", Mults: []int64{86400e9, 3600e9, 60e9, 1e9, 1e6, 1e3, 1},
+		Names: [][]string{{"d", "d", "day", "days"}, {"H", "H", "hour", "hours"}, {"m", "m", "minute", "minutes"}, {"s", "s", "second", "seconds"},
+			{"ms", "ms", "milliseconds", "milliseconds"}, {"μs", "μs", "microsecond", "microseconds"}, {"ns", "ns", "nanosecond", "nanoseconds"}}},
+}
+
+// UnitSetByID finds a unit set.
+func UnitSetByID(id string) *UnitSet {
+	for i := range UnitSets {
+		if UnitSets[i].ID == id {
+			return &UnitSets[i]
+		}
+	}
+	return nil
+}
+
+// BigAmount lexes a STRICT unit string of the set (integral counts, declared unit names, every unit at most
+// once, largest first) and returns its amount as a big integer; ok=false if it is no such string.
+func BigAmount(text string, set *UnitSet) (*big.Int, bool) {
+	s := strings.TrimSpace(text)
+	sum := new(big.Int)
+	last := -1
+	i := 0
+	n := 0
+	for i < len(s) {
+		for i < len(s) && (s[i] == ' ' || s[i] == '\t') {
+			i++
+		}
+		j := i
+		for j < len(s) && s[j] >= '0' && s[j] <= '9' {
+			j++
+		}
+		if j == i {
+			return nil, false
+		}
+		c, _ := new(big.Int).SetString(s[i:j], 10)
+		i = j
+		for i < len(s) && (s[i] == ' ' || s[i] == '\t') {
+			i++
+		}
+		k := i
+		for k < len(s) && s[k] != ' ' && s[k] != '\t' && !(s[k] >= '0' && s[k] <= '9') {
+			k++
+		}
+		name := s[i:k]
+		idx := -1
+		for u, names := range set.Names {
+			for _, nm := range names {
+				if nm == name {
+					idx = u
+				}
+			}
+		}
+		if idx < 0 || idx <= last {
+			return nil, false
+		}
+		last = idx
+		sum.Add(sum, new(big.Int).Mul(c, big.NewInt(set.Mults[idx])))
+		i = k
+		n++
+	}
+	return sum, n > 0
+}
+
+func bigClass(text string, isBig bool) map[string]string {
+	out := map[string]string{}
+	for i := range UnitSets {
+		set := &UnitSets[i]
+		switch amount, ok := BigAmount(text, set); {
+		case !isBig:
+			out[set.ID] = "none"
+		case !ok:
+			out[set.ID] = "nolex"
+		case amount.Cmp(maxI64) <= 0:
+			out[set.ID] = "fits"
+		default:
+			out[set.ID] = "over"
+		}
+	}
+	return out
 }
 
 // TokenDef is a token with its id in the specification and its text.
@@ -217,6 +318,18 @@ func init() {
 	add("#nl", "\n", "unit", "int")
 	add("", " 5m30s ", "unit")
 	add("#tab1s", "\t1s", "unit")
+	// amounts around 2^63 and 2^64 for each built-in unit set (single components and sums); group "big"
+	for _, t := range []string{
+		"8191PB", "8192PB", "12000PB", "16383PB", "16384PB", "20000PB", "9223372036854775807B", "9223372036854775808B",
+		"8191PB1023TB", "8191PB1024TB", "8191PB1023TB1023GB1023MB1023kB1023B", "8191PB1023TB1023GB1023MB1023kB1024B",
+		"106751d", "106752d", "213503d", "213504d", "106751d23H47m16s854ms775μs807ns", "106751d23H47m16s854ms775μs808ns",
+		"9223372036854775807ns", "106751991167300d", "106751991167301d", "213503982334601d", "213503982334602d",
+		"9223372036854775807s", "9223372036854775808s", "106751991167300d15H30m7s", "106751991167300d15H30m8s", "153722867280912930m",
+		"153722867280912931m",
+	} {
+		tokenDefs = append(tokenDefs, TokenDef{ID: "#big:" + strings.ReplaceAll(t, "μ", "u"), Text: t, Groups: []string{"big"}})
+		seen[t] = true
+	}
 	// unit strings for the second based set (d H m s)
 	for _, s := range []string{"0s", "1s", "2s", "3s", "1 s", "1second", "2 seconds", "1 seconds", "2second", "0m1s", "0m2s", "0d0H0m3s",
 		"1m", "1m4s", "5m30s", "90s", "1H", "1d", "1d1s", "1s1m", "1m1m", "1x", "1h", "1S", "s", "1.5s", "0.5s", "1.5m",
@@ -424,7 +537,23 @@ func ComputeAttr(text string) (TokAttr, error) {
 	if a.UToks == nil {
 		a.UToks = []UTok{}
 	}
+	a.UBig = bigClass(text, false)
 	return a, nil
+}
+
+// BigAttr: attributes of a token of group "big".  Its numeric readings are outside the model line, so the
+// table says only what the specification needs: it is no integer / float / boolean word of the identity
+// region (no schema without units is fed these tokens), its byte length, and its class per unit set.
+func BigAttr(text string) TokAttr {
+	a := TokAttr{Len: int64(len(text)), Runes: int64(utf8.RuneCountInString(text)), Pat: map[string]bool{}, UCls: "nolex", UToks: []UTok{}}
+	a.Flt.Cls = "num"
+	for _, id := range PatternIds {
+		a.Pat[id] = regexp.MustCompile(PatternSrc[id]).MatchString(text)
+	}
+	_, err := regexp.Compile(text)
+	a.Re = err == nil
+	a.UBig = bigClass(text, true)
+	return a
 }
 
 // SymText renders a symbolic token under an embedding.
@@ -527,7 +656,12 @@ func CheckSymbolic() error {
 // Attr returns the attributes of any token.
 func Attr(t *TokenDef) (TokAttr, error) {
 	if t.SymKind != "" {
-		return SymAttr(t), nil
+		a := SymAttr(t)
+		a.UBig = bigClass("", false)
+		return a, nil
+	}
+	if strings.HasPrefix(t.ID, "#big:") {
+		return BigAttr(t.Text), nil
 	}
 	return ComputeAttr(t.Text)
 }
@@ -587,6 +721,10 @@ func GenStringsTLA() (string, error) {
 (*   bw     boolean word (case-insensitive list of appendix B)             *)
 (*   pat    hit of each pattern of PatternIds                              *)
 (*   re     compiles as a Go regular expression                            *)
+(*   ubig   tokens of group g_big (amounts around 2^63 / 2^64, beyond the  *)
+(*          model line) per built-in unit set: "fits" / "over" (does the   *)
+(*          amount of this strict unit string fit in int64 - decided with  *)
+(*          math/big), "nolex"; "none" for all other tokens                *)
 (*   ucls   unit lexing for the second based set <<86400,3600,60>>:        *)
 (*          "lex" (utoks = Units!Tok sequence), "nolex" (not a count/name  *)
 (*          string), "odd" (a count with a fraction other than .5)         *)
@@ -632,9 +770,10 @@ func GenStringsTLA() (string, error) {
 		if t.SymKind == "" && !safeID(t.Text) {
 			cmt = "  \\* text " + strings.ReplaceAll(strconv.QuoteToASCII(t.Text), "\\", "/")
 		}
-		fmt.Fprintf(&sb, "  [id |-> %s, len |-> %d, runes |-> %d, sym |-> %s, int |-> [ok |-> %s, v |-> %d], flt |-> [ok |-> %s, cls |-> %s, h |-> %d], bw |-> [some |-> %s, v |-> %s], pat |-> [%s], re |-> %s, ucls |-> %s, utoks |-> <<%s>>]%s%s\n",
+		fmt.Fprintf(&sb, "  [id |-> %s, len |-> %d, runes |-> %d, sym |-> %s, int |-> [ok |-> %s, v |-> %d], flt |-> [ok |-> %s, cls |-> %s, h |-> %d], bw |-> [some |-> %s, v |-> %s], pat |-> [%s], re |-> %s, ucls |-> %s, utoks |-> <<%s>>, ubig |-> [sec |-> %s, bytes |-> %s, nanos |-> %s]]%s%s\n",
 			tlaStr(t.ID), a.Len, a.Runes, tlaBool(a.Sym), tlaBool(a.Int.OK), a.Int.V, tlaBool(a.Flt.OK), tlaStr(a.Flt.Cls), a.Flt.H,
-			tlaBool(a.BW.Some), tlaBool(a.BW.V), strings.Join(pats, ", "), tlaBool(a.Re), tlaStr(a.UCls), strings.Join(ut, ", "), sep, cmt)
+			tlaBool(a.BW.Some), tlaBool(a.BW.V), strings.Join(pats, ", "), tlaBool(a.Re), tlaStr(a.UCls), strings.Join(ut, ", "),
+			tlaStr(a.UBig["sec"]), tlaStr(a.UBig["bytes"]), tlaStr(a.UBig["nanos"]), sep, cmt)
 	}
 	sb.WriteString(">>\n\n")
 	sb.WriteString("TokIds == {TokSeq[i].id : i \\in DOMAIN TokSeq}\n")
